@@ -2,6 +2,7 @@ package main
 
 import (
 	"fmt"
+	"math/bits"
 	"os"
 	"go/types"
 	"math"
@@ -138,7 +139,16 @@ func init() {
 	})
 	regRepo("vhBlob", func(ex *Exec, st *State, fr *Frame, args []Value) (Value, ctlT) {
 		mx := args[1].(*Term)
-		v := ex.newInput(st, strArg(args[0]), "BlobLen", 64)
+		// the length is a narrow variable zero-extended to 64 bits, so that its range is visible to the simplifier
+		w := uint8(64)
+		if mx.IsConst() && mx.Val < 1<<62 {
+			w = uint8(bits.Len64(mx.Val))
+			if w == 0 {
+				w = 1
+			}
+		}
+		raw := ex.newInput(st, strArg(args[0]), "BlobLen", w)
+		v := ex.tt.ZExt(raw, 64)
 		ex.assume(st, ex.tt.And(ex.tt.Sle(C(64, 0), v), ex.tt.Sle(v, mx)))
 		return SliceVal{Kind: SliceBlob, LenT: v, NonNil: true}, ctlRet
 	})
@@ -217,6 +227,10 @@ func init() {
 	})
 	regRepo("vhUnwind", func(ex *Exec, st *State, fr *Frame, args []Value) (Value, ctlT) {
 		st.unwind = ex.intArg(st, args[0], "unwind")
+		return nil, ctlRet
+	})
+	regRepo("vhConcreteClock", func(ex *Exec, st *State, fr *Frame, args []Value) (Value, ctlT) {
+		st.concreteClock = args[0].(*Term).IsTrue()
 		return nil, ctlRet
 	})
 	regRepo("vhAllocLimit", func(ex *Exec, st *State, fr *Frame, args []Value) (Value, ctlT) {
